@@ -17,9 +17,11 @@ ALL_CONTRACT_MODULES = None
 def contract_modules():
     global ALL_CONTRACT_MODULES
     if ALL_CONTRACT_MODULES is None:
-        d = os.path.join(VERIF, 'contracts')
-        ALL_CONTRACT_MODULES = ['contracts.' + f[:-3] for f in sorted(os.listdir(d))
-                                if f.endswith('.py') and f != '__init__.py']
+        ALL_CONTRACT_MODULES = []
+        for pkg in ('contracts', 'schemas'):
+            d = os.path.join(VERIF, pkg)
+            ALL_CONTRACT_MODULES += ['%s.%s' % (pkg, f[:-3]) for f in sorted(os.listdir(d))
+                                     if f.endswith('.py') and f != '__init__.py']
     return ALL_CONTRACT_MODULES
 
 
@@ -85,7 +87,7 @@ def contract_unit(spec):
                     e['reify_error'] = repr(ex)
             e['model_inputs'] = inputs
             confirmed = None
-            if inputs is not None:
+            if inputs is not None and not c.ghost.get('k3'):
                 rr = rp.replay(c, inputs)
                 e['replay'] = rr
                 if rr.get('verdict') == 'violates':
